@@ -124,6 +124,16 @@ rec("error_undefined_detection_after_add_condition", lambda: conv(P_COND, UNDEF_
 rec("error_undefined_detection_after_add_condition_raised", lambda: conv(P_COND, UNDEF_RULES, collect=False))
 rec("error_undefined_detection_after_filter", lambda: conv(None, UNDEF_RULES + FILTERS[1:2] + FILTERS_THEM[1:]))
 rec("error_undefined_detection_after_filter_and_add_condition", lambda: conv(P_COND, UNDEF_RULES + FILTERS[1:2], collect=False))
+# a correlation rule over a rule that failed after the pipeline had added a condition and mapped fields: its error names the rule
+P_CORRFAIL = {"name": "cf", "priority": 1, "transformations": [
+    {"id": "zeta", "type": "add_condition", "conditions": {"src": "one"}, "rule_conditions": [{"type": "is_sigma_rule"}]},
+    {"id": "alpha", "type": "field_name_mapping", "mapping": {"f1": "g1"}}, {"id": "beta", "type": "field_name_suffix", "suffix": "_s"},
+    {"id": "fail", "type": "rule_failure", "message": "nope", "rule_conditions": [{"type": "logsource", "category": "c"}, {"type": "is_sigma_rule"}]}]}
+CORRFAIL = [rule({"sel": {"f1": "a"}}, name="rf", title="rf"),
+            {"title": "cf", "name": "cf", "correlation": {"type": "event_count", "rules": ["rf"], "timespan": "5m", "group-by": ["u"], "condition": {"gte": 2}}}]
+rec("error_correlation_over_failed_rule", lambda: conv(P_CORRFAIL, CORRFAIL, V.K(correlation={"typing": True})))
+rec("error_correlation_over_failed_rule_raised", lambda: V.make_backend_class(V.K(correlation={"typing": True}))(ProcessingPipeline.from_dict(P_CORRFAIL), collect_errors=True).convert_correlation_rule(
+    (lambda c: (c.resolve_rule_references(), c.rules[-1])[1])(SigmaCollection.from_dicts(CORRFAIL))))
 P_HASH = {"name": "h", "priority": 1, "transformations": [{"id": "h", "type": "hashes_fields", "valid_hash_algos": ["SHA256", "MD5", "SHA1", "IMPHASH"], "field_prefix": "File"}]}
 rec("error_hashes_unknown_algorithm", lambda: conv(P_HASH, [rule({"sel": {"Hashes|contains": "CRC32=abcdef01"}}), rule({"sel": {"Hashes|contains": ["MD5=0123456789abcdef0123456789abcdef", "IMPHASH=0123456789abcdef0123456789abcdef"]}})]))
 FILTER_PATTERN_UNDEF = [rule({"sel": {"f1": "a"}}, "sel"),
@@ -164,5 +174,5 @@ rec("validators", validators)
 # probe of set iteration orders realised by this hash seed (coverage measurement, not judged)
 probe_sets = {"refs3": ["ra", "rb", "rc"], "kw3": ["zeta", "alpha", "beta"], "ids3": ["c_zeta", "c_alpha", "c_beta"], "g3": ["g1", "g2", "g3"], "flags3": ["i", "m", "s"], "h2": ["h1", "h2"], "unm3": ["zeta", "alpha", "beta"], "flagnames3": ["IGNORECASE", "MULTILINE", "DOTALL"], "dets3": ["sel_zeta", "sel_alpha", "sel_beta"], "algos3": ["SHA256", "MD5", "SHA1"]}
 orders = {k: list(set(v)) for k, v in probe_sets.items()}
-leak = sorted(set(re.findall(r"_(?:cond|filt)_[a-z]{10}", json.dumps(out, default=repr))))
+leak = sorted(set(re.findall(r"_(?:cond|filt)_[a-z0-9]{6,}", json.dumps(out, default=repr))))
 print(json.dumps({"out": out, "orders": orders, "leak": leak}, default=repr, sort_keys=True))
